@@ -136,6 +136,7 @@ type Stage2 struct {
 	loadS     float64
 	moqBin    string
 	cleanup   func()
+	genIndex  map[string]*mockInfo // obligation name prefix (gen[...]/Mock.Func) -> mock
 }
 
 // TypeOb is an obligation discharged by go/types / go/ast / go/format on the
@@ -1291,6 +1292,10 @@ func (s2 *Stage2) execGenerated(mi *mockInfo, kind, method string, fn *ssa.Funct
 	h.name = fmt.Sprintf("gen[%s]/%s.%s", mi.sc.flagString()+";"+strings.Join(mi.sc.Args, "+"), mi.mockName, fn.Name())
 	e.hooks = h
 	fnAlias[fn] = h.name
+	if s2.genIndex == nil {
+		s2.genIndex = map[string]*mockInfo{}
+	}
+	s2.genIndex[h.name] = mi
 	st := e.newState()
 	var args []SV
 	for i, p := range fn.Params {
